@@ -781,6 +781,7 @@ func (x *Exec) strLt(a, b string) string {
 func (x *Exec) strAt(st *State, s, idx string) V {
 	t := types.Typ[types.Uint8]
 	if x.s.strSMT {
+		x.s.strBytes = true
 		return V{T: t, S: x.fromMathInt(t, "(str.to_code (str.at "+s+" "+idx+"))")}
 	}
 	term := "(sat " + s + " " + idx + ")"
